@@ -44,6 +44,9 @@ def adjoint_check(ctx, Ax, x, AHy, y, bucket, what, tol=1e-10):
     ctx.require(np.isfinite(err) and err <= tol, bucket, '%s: <y,Ax>=%r but <A^H y,x>=%r (relative mismatch %.3g)' % (what, complex(lhs), complex(rhs), err))
 
 
+FD_FLOOR = 1e-7
+
+
 def directional_check(ctx, cost, x, grad, v, bucket, what, rtol=1e-6, atol=0.0):
     """cost: callable x -> float.  grad: reverse-mode gradient with convention dc = Re<grad, dx>."""
     grad = np.asarray(grad)
@@ -60,7 +63,10 @@ def directional_check(ctx, cost, x, grad, v, bucket, what, rtol=1e-6, atol=0.0):
         cm = cost(x - h * v)
         fd = (cp - cm) / (2 * h)
         cands.append(fd)
-        scale = max(abs(fd), abs(pred), 1e-9 * (abs(cp) + abs(cm)) / h if h > 0 else 0, 1e-300)
+        # the finite difference itself is only good to a few hundred eps |c| / h (rounding of the cost evaluations): rtol * FD_FLOOR * |c| / h = 1e-13 |c| / h
+        # is the smallest mismatch that means anything (a thorough run met a saturated softmax, derivative 4.5e-8 of a cost of 0.1, whose four
+        # estimates differed among themselves by 1e-13 = 2e-6 relative; kept as a must-pass replay)
+        scale = max(abs(fd), abs(pred), FD_FLOOR * (abs(cp) + abs(cm)) / h if h > 0 else 0, 1e-300)
         best = min(best, abs(fd - pred) / scale)
     # a fourth-order (five-point) estimate as well: strongly curved costs (small softmax temperatures, steep activations) leave a
     # second-order truncation error of a few 1e-6 in the two-point estimates above
@@ -68,7 +74,7 @@ def directional_check(ctx, cost, x, grad, v, bucket, what, rtol=1e-6, atol=0.0):
         c2p, cp, cm, c2m = cost(x + 2 * h * v), cost(x + h * v), cost(x - h * v), cost(x - 2 * h * v)
         fd = (-c2p + 8 * cp - 8 * cm + c2m) / (12 * h)
         cands.append(fd)
-        scale = max(abs(fd), abs(pred), 1e-9 * (abs(cp) + abs(cm)) / h, 1e-300)
+        scale = max(abs(fd), abs(pred), FD_FLOOR * (abs(cp) + abs(cm)) / h, 1e-300)
         best = min(best, abs(fd - pred) / scale)
     # absolute floor: both essentially zero
     gnorm = float(np.linalg.norm(grad) * np.linalg.norm(v))
